@@ -71,18 +71,15 @@ func fieldNameOfKey(key string) (typ, short, field string) {
 	return
 }
 
-func (x *Exec) fieldModeFor(key string) *FieldMode {
+func (x *Exec) fieldModesFor(key string) []*FieldMode {
 	typ, short, field := fieldNameOfKey(key)
 	if typ == "" {
 		return nil
 	}
-	if m, ok := x.CS.Fields[typ+"."+field]; ok {
+	if m, ok := x.CS.FieldModes[typ+"."+field]; ok {
 		return m
 	}
-	if m, ok := x.CS.Fields[short+"."+field]; ok {
-		return m
-	}
-	return nil
+	return x.CS.FieldModes[short+"."+field]
 }
 
 func (x *Exec) concurrent() bool { return x.fc != nil && x.fc.Mode == "concurrent" }
@@ -245,13 +242,15 @@ func (x *Exec) checkFieldAccess(st *State, key string, ref Term, write bool, in 
 		// accesses inside inlined named functions are checked when those functions are verified
 		// (they are still checked here because the lockset is the caller's)
 	}
-	m := x.fieldModeFor(key)
-	if m == nil {
-		return
-	}
 	if st.fresh[ref.S] {
 		return
 	}
+	for _, m := range x.fieldModesFor(key) {
+		x.checkFieldMode(st, m, key, ref, write, in)
+	}
+}
+
+func (x *Exec) checkFieldMode(st *State, m *FieldMode, key string, ref Term, write bool, in ssa.Instruction) {
 	_, short, field := fieldNameOfKey(key)
 	fname := short + "." + field
 	rw := "read"
